@@ -26,6 +26,8 @@ val add : nat -> nat -> nat
 
 val sub : nat -> nat -> nat
 
+val leb : nat -> nat -> bool
+
 val eqb : bool -> bool -> bool
 
 module Nat :
@@ -223,6 +225,10 @@ val nL : byte
 val split_aux : byte list -> byte list -> byte list list
 
 val split_lines : byte list -> byte list list
+
+val lines_aux : n list -> n list -> n list list
+
+val str_lines : n list -> n list list
 
 val orelse : 'a1 option -> 'a1 option -> 'a1 option
 
@@ -588,6 +594,95 @@ val lit : n -> n list
 val print : re -> n list
 
 val print_top : re -> n list
+
+type text = n list
+
+type ptest = { pt_title : text; pt_cmd : text list; pt_exps : text list;
+               pt_code : n option; pt_line : nat }
+
+type lp = { lp_title : text option; lp_cmd : text list; lp_exps : text list;
+            lp_code : n option; lp_in_command : bool; lp_start : nat option;
+            lp_cases : ptest list }
+
+val lp_init : lp
+
+type 'a lres =
+| LOk of 'a
+| LErr
+
+val strip_prefix : text -> text -> text option
+
+val p_DOLLAR : text
+
+val p_GT : text
+
+val is_digit : n -> bool
+
+val digits_value : n -> n list -> n
+
+val extract_exit_code : text -> n option
+
+val flush : lp -> ptest list -> lp
+
+val end_testcase : lp -> nat -> lp lres
+
+val add_body : (text -> bool) -> bool -> lp -> text -> nat -> lp lres
+
+val set_title : lp -> text -> lp
+
+val has_body : lp -> bool
+
+val iNDENT : text
+
+val is_comment : text -> bool
+
+val cram_step : (text -> bool) -> lp -> text -> nat -> lp lres
+
+val cram_loop : (text -> bool) -> lp -> text list -> nat -> lp lres
+
+val parse_cram : (text -> bool) -> text list -> ptest list lres
+
+type bline =
+| BExp of text
+| BCode of text
+
+type block =
+| BTitle of text
+| BComment of text
+| BBlank
+| BTest of text * text list * bline list
+
+val render_bline : bline -> text
+
+val render_block : block -> text list
+
+val render_cram : block list -> text list
+
+val title_ok : text -> bool
+
+val comment_ok : text -> bool
+
+val exp_ok : (text -> bool) -> text -> bool
+
+val code_ok : text -> bool
+
+val count_codes : bline list -> nat
+
+val body_ok : (text -> bool) -> bline list -> bool
+
+val no_lf : text -> bool
+
+val block_ok : (text -> bool) -> block -> bool
+
+val wf_cram : (text -> bool) -> block list -> bool
+
+val exps_of0 : bline list -> text list
+
+val code_of : bline list -> n option
+
+val tests_from : block list -> nat -> text option -> ptest list
+
+val cram_tests_of : block list -> ptest list
 
 val make_exp : bool -> bool -> (nat -> bool) -> nat exp
 
